@@ -5,7 +5,7 @@
    (ii)  NiHeader::GetBlockTypeStringById           src/BasicTypes.cpp:415-423
          NifFile::GetTree                           src/NifFile.cpp:2337-2354
          NifFile::GetParentNode                     src/NifFile.cpp:28-44
-         the parent walk of GetNodeTransformToGlobal  src/NifFile.cpp:2367-2386
+         the parent walk of GetNodeTransformToGlobal (with its visited set)
          (IsBlockReferenced, DeleteUnreferencedBlocks, BlockDeleted's shift_ref and SetBlockOrder's
           remap_ref are the definitions of GraphModel.v)
    (iii) SetSortIndices / SortCollision / PrettySortBlocks visited bookkeeping
@@ -73,6 +73,20 @@ Definition rb_assign (i : N) (st : rb_sstate) : res rb_sstate :=
   | _, _ => Fault
   end.
 
+(* sortState.visitedIndices.insert(i)  (alone) *)
+Definition rb_mark (i : N) (st : rb_sstate) : res rb_sstate :=
+  match vset (rb_visited st) i true with
+  | Some vi => Ok (mkRbSt vi (rb_new_indices st) (rb_new_index st))
+  | None => Fault
+  end.
+
+(* sortState.newIndices[i] = sortState.newIndex++;  (alone) *)
+Definition rb_set_index (i : N) (st : rb_sstate) : res rb_sstate :=
+  match vset (rb_new_indices st) i (rb_new_index st) with
+  | Some ni => Ok (mkRbSt (rb_visited st) ni (rb_new_index st + 1))
+  | None => Fault
+  end.
+
 Section Sorter.
   Variable n : N.                         (* numBlocks *)
   Variable children : N -> list N.        (* GetChildIndices of block i *)
@@ -92,15 +106,22 @@ Section Sorter.
     : res rb_sstate :=
     if (rb_valid c && negb (rb_is_visited st c) && cond c)%bool then sc c st else Ok st.
 
-  (* NifFile::SortCollision(parent, parentIndex, sortState) *)
+  (* NifFile::SortCollision(parent, parentIndex, sortState), as repaired by
+     "fix: SortCollision marks its parent as visited before it descends":
+       bool assignIndex = sortState.visitedIndices.insert(parentIndex).second;
+       ... entities, child-before-parent children ...
+       if (assignIndex) sortState.newIndices[parentIndex] = sortState.newIndex++;
+       ... the other children ...                                                    *)
   Fixpoint rb_sort_collision (fuel : nat) (p : N) (st : rb_sstate) : res rb_sstate :=
     match fuel with
     | O => OutOfFuel
     | S f =>
-      bind (rb_iter (rb_call (rb_sort_collision f) (fun _ => true)) (entities p) st) (fun st1 =>
+      let assign_index := negb (rb_is_visited st p) in
+      bind (if assign_index then rb_mark p st else Ok st) (fun st0 =>
+      bind (rb_iter (rb_call (rb_sort_collision f) (fun _ => true)) (entities p) st0) (fun st1 =>
       bind (rb_iter (rb_call (rb_sort_collision f) before) (children p) st1) (fun st2 =>
-      bind (if rb_is_visited st2 p then Ok st2 else rb_assign p st2) (fun st3 =>
-      rb_iter (rb_call (rb_sort_collision f) (fun c => negb (before c))) (children p) st3)))
+      bind (if assign_index then rb_set_index p st2 else Ok st2) (fun st3 =>
+      rb_iter (rb_call (rb_sort_collision f) (fun c => negb (before c))) (children p) st3))))
     end.
 
   Definition rb_run_action (ssi sc : N -> rb_sstate -> res rb_sstate) (a : rb_action) (st : rb_sstate) : res rb_sstate :=
@@ -148,7 +169,7 @@ Section Tree.
 End Tree.
 
 (* GetParentNode(child): the first block that is a NiNode and holds the child's id in childRefs;
-   the walk of GetNodeTransformToGlobal: while (parent) parent = GetParentNode(parent)  -- no visited set *)
+   the walk of GetNodeTransformToGlobal *)
 Section Parent.
   Variable node_children : list (option (list N)).   (* per block: Some childRefs when it is a NiNode *)
 
@@ -161,13 +182,17 @@ Section Parent.
 
   Definition rb_get_parent_node (i : N) : option N := rb_first_parent i 0 node_children.
 
-  Fixpoint rb_to_global (fuel : nat) (i : N) (steps : N) : res N :=
+  (* as repaired by "fix: GetNodeTransformToGlobal stops when a parent node repeats":
+       std::set<NiNode*> visited{node};
+       while (parent && visited.insert(parent).second) { ...; parent = GetParentNode(parent); }
+     [visited] holds the start node and every parent composed so far; the result is their number *)
+  Fixpoint rb_to_global (fuel : nat) (i : N) (visited : list N) : res N :=
     match fuel with
     | O => OutOfFuel
     | S f =>
       match rb_get_parent_node i with
-      | None => Ok steps
-      | Some p => rb_to_global f p (steps + 1)
+      | None => Ok (vlen visited)
+      | Some p => if rb_mem p visited then Ok (vlen visited) else rb_to_global f p (visited ++ [p])
       end
     end.
 End Parent.
@@ -306,7 +331,7 @@ Fixpoint rb_root_level (g : rb_graph) (i : N) (l : rb_graph) : list N :=
                then [i] else []) ++ rb_root_level g (i + 1) r
   end.
 
-Definition rb_sort_fuel (g : rb_graph) : nat := S ((length g + 1) * (length g + 1)).
+Definition rb_sort_fuel (g : rb_graph) : nat := S (S (length g)).
 
 Definition rg_pretty_sort (fuel : nat) (g : rb_graph) (ob unk : bool) : res (list N) :=
   if unk then Ok (rb_all_ids (vlen g))
@@ -324,7 +349,7 @@ Definition rg_get_tree (fuel : nat) (g : rb_graph) : res (list N) :=
   if rg_root g =? NPOS then Ok [] else rb_get_tree (vlen g) (rg_children g) fuel (rg_root g) [].
 
 Definition rg_to_global (fuel : nat) (g : rb_graph) (i : N) : res N :=
-  rb_to_global (rg_node_children g) fuel i 0.
+  rb_to_global (rg_node_children g) fuel i [i].
 
 (* the header seen by IsBlockReferenced / GetBlockRefCount / DeleteUnreferencedBlocks *)
 Definition rg_blocks (g : rb_graph) (tn : list N) : list block :=
@@ -334,42 +359,31 @@ Definition rg_blocks (g : rb_graph) (tn : list N) : list block :=
 Definition rg_remap (order : list N) (refs : list N) : list N := map (remap_ref order) refs.
 
 (* ---------------------------------------------------------------------------------------------- *)
-(* decidable certificates checked at run time by the model oracle (soundness: RobustProofs.v) *)
+(* the input classes of the two repaired defects (C15-sortcollision-cycle, C15-node-cycle-global-
+   transform-hang), kept as decidable predicates so that the check can tell when a crash of the
+   implementation is one of them coming back; the model above is total on these graphs too *)
 Section Checkers.
   Variable n : N.
   Variable children : N -> list N.
   Variable entities : N -> list N.
   Variable before : N -> bool.
 
-  (* the calls SortCollision(p) makes BEFORE it marks p: existing entities, and existing children of
-     the before-parent kind (each only when not yet visited) *)
+  (* the calls SortCollision(p) makes before its "Assign new sort index" step: existing entities,
+     and existing children of the before-parent kind *)
   Definition rb_pre_targets (p : N) : list N :=
     filter (rb_valid n) (entities p) ++ filter (fun c => (rb_valid n c && before c)%bool) (children p).
-
-  Definition rb_rank_of (ranks : list N) (i : N) : N := match vget ranks i with Some r => r | None => 0 end.
-
-  (* [ranks] strictly decreases along every such call: no cycle among them *)
-  Definition rb_rank_ok (ranks : list N) : bool :=
-    forallb (fun p => forallb (fun c => rb_rank_of ranks c <? rb_rank_of ranks p) (rb_pre_targets p)) (rb_all_ids n).
 
   (* every member of C exists and makes such a call into C: C contains a cycle of them *)
   Definition rb_closed_ok (C : list N) : bool :=
     forallb (fun p => (rb_valid n p && existsb (fun c => rb_mem c C) (rb_pre_targets p))%bool) C.
 End Checkers.
 
-Definition rg_rank_ok (g : rb_graph) (ranks : list N) : bool :=
-  (rb_rank_ok (vlen g) (rg_children g) (rg_entities g) (rg_before g) ranks
-   && forallb (fun r => r <=? vlen g) ranks)%bool.
 Definition rg_closed_ok (g : rb_graph) (C : list N) : bool :=
   rb_closed_ok (vlen g) (rg_children g) (rg_entities g) (rg_before g) C.
 
-(* the same two certificates for the parent walk *)
+(* every member of C has its parent node in C: a cycle of node parents *)
 Definition rb_pclosed_ok (nc : list (option (list N))) (C : list N) : bool :=
   forallb (fun p => match rb_get_parent_node nc p with Some q => rb_mem q C | None => false end) C.
-Definition rb_prank_ok (nc : list (option (list N))) (ranks : list N) : bool :=
-  forallb (fun i => match rb_get_parent_node nc i with
-                    | Some q => rb_rank_of ranks q <? rb_rank_of ranks i
-                    | None => true end) (rb_all_ids (vlen nc)).
 
 (* ---------------------------------------------------------------------------------------------- *)
 (* family-unique entry points for the model oracle (all families share one extracted module) *)
